@@ -323,11 +323,15 @@ def jobs(tier):
                     note='all 10^6 sub-second microsecond values at one seconds value, little- and big-endian read'),
                 Job('pre_1904_microseconds', 'enum', enum_us([-86400 * 365 - 1], stride=16), check=check_roundtrip,
                     note='every 16th microsecond value at a negative (pre-1904) seconds value'),
+                Job('far_dates_microseconds', 'enum', enum_us([18808761296, -28502841677, 150000000000], stride=64),
+                    check=check_roundtrip, note='every 64th microsecond value in the years 2500, 1000 and 6657'),
                 Job('file_blocks', 'enum', _blocks([3524551547], 4000, 2), check=check_file_block),
                 Job('conversions', 'hyp', conv_case, n=30000, check=check_conversion),
                 Job('raw_defragment', 'hyp', raw_case, n=1500, check=check_raw),
                 Job('time_track', 'hyp', track_case, n=4000, check=check_track)]
-    return [Job('all_microseconds', 'enum', enum_us([3524551547, 0, -1, -86400 * 365 * 100 - 7]), exhaustive=True,
+    return [Job('far_dates_microseconds', 'enum', enum_us([18808761296, -28502841677, 150000000000], stride=2),
+                check=check_roundtrip, note='every 2nd microsecond value in the years 2500, 1000 and 6657'),
+            Job('all_microseconds', 'enum', enum_us([3524551547, 0, -1, -86400 * 365 * 100 - 7]), exhaustive=True,
                 check=check_roundtrip, note='all 10^6 sub-second microsecond values at 4 seconds values incl. pre-1904'),
             Job('file_blocks', 'enum', _blocks([3524551547, -12345], 10000, 10 ** 6), exhaustive=True,
                 check=check_file_block, note='all 10^6 microsecond values through TdmsWriter/TdmsFile as data'),
